@@ -240,3 +240,10 @@ def run(ck, facts):
     import c11
     sub = C.SubCheck(ck, "R6", "", ["R1"], key_re=r"^cpp/")
     c11.run(sub, facts)
+    # a std::function handed to Rust is moved to the heap and released through c_delete (rule of C03.R5 on the C++ Callback conversion)
+    import c03
+    sub3 = C.SubCheck(ck, "R6", "", ["R5"], key_re=r"Callback|c_delete")
+    c03.run(sub3, facts)
+    import c09
+    sub4 = C.SubCheck(ck, "R6", "", ["R3"], key_re=r"^cpp/include-guard")
+    c09.run(sub4, facts)
